@@ -40,7 +40,10 @@ def run(ck, ctx):
         "whose value survives from one line to the next are the enumerated assembly / comment / SET registers, (T-REBIND) the "
         "pending statement is re-bound on every path of process_statement. Order: (T-ORDER / T-ITER) results are appended in one "
         "in-order pass, the formatter walks the parser output once in order and keeps no state besides the table registry used "
-        "for ALTER / INDEX merging; no mutable class-level default is shared between table objects.")
+        "for ALTER / INDEX merging; no mutable class-level default is shared between table objects. Statement boundaries (E7, O-split): "
+        "Parser.process_line evaluated abstractly - from the start of the script and from the state left by each kind of statement, a "
+        "`;`-terminated statement hands over exactly its own text once (skipped statements, SET and blank lines nothing), leaves the "
+        "line machine as it was at the start of the script, and as last statement of the script is still handed over / reported.")
     # ---- lexer flags
     S.t_reset_lexer(ck, ctx, channels=True)
     ck.floor("T-RESET.lexer", 10)
@@ -212,10 +215,15 @@ def run(ck, ctx):
                       "the table registry is filled only when a table statement is formatted", f.loc(a.node))
     S.t_class_defaults(ck, ctx)
     ck.floor("T-SHARED-DEFAULT", 20)
+    # ---- E7: the line machine at statement boundaries
+    from ..specs import lines as L
+    L.check_statement_boundaries(ck, ctx)
+    ck.floor("O-split", 100)
     ck.assumptions += [
         "PLY's LRParser.parse() starts from an empty stack on every call and keeps nothing between calls but the lexer object",
-        "declined: the line-based assembly of statements / skip of non-DDL lines (string machine over run-time text) and PLY's error "
-        "recovery inside one unsupported statement (DESIGN 4 C03)"]
+        "the line machine is decided at line-class level (E7): statements of the listed shapes (one-line, multi-line table with and "
+        "without a clause line, skipped statements on one line, GO, SET lines, blank lines), each ending with ';' at the end of a line",
+        "declined: PLY's error recovery inside one unsupported statement; unsupported statements spanning several lines (DESIGN 4 C03)"]
 
 
 def _concat(ck, ctx):
